@@ -13,10 +13,12 @@ EXPLANATION = (
     "dtype list equals the statement's (boolean, integer, float, date/datetime); the mode kernel counts occurrences over the whole "
     "group; (PURE-kernel) no kernel writes to or sorts in place the group slices it receives (they are views of the frame's "
     "column: a write changes what the next helper in the same call sees -- the order-of-use clause as far as code shape shows it); "
-    "(SIB-9) the Numba-side NA test has a branch for every eligible dtype that has a missing value (Float -> isnan, NPDatetime -> "
-    "isnat), agreeing with Vector.is_na. NOT decided: equality of values between NumPy and Numba's re-implementations, rounding, "
-    "and the history clause proper (order of first compilation, on-disk JIT cache): that is JIT runtime state no static argument "
-    "here bounds."
+    "(SIB-9) for every element kind use_numba() admits -- its np.issubdtype disjuncts evaluated through NumPy's scalar hierarchy, in "
+    "which timedelta64 is a sub-dtype of np.integer -- the Numba-side NA test is the one Vector.is_na applies (Float -> isnan, "
+    "NPDatetime/NPTimedelta -> isnat, others never missing); (NJIT-optional) no compiled kernel returns a list that mixes element "
+    "values with None: with the installed Numba such list(Optional(T)) results depend on which of these kernels was compiled first "
+    "(known finding D25: four sites, failing histories in notes/numba_optional_lists.md). NOT decided: equality of values between "
+    "NumPy and Numba's re-implementations (e.g. the hand-written mode loops), rounding, the on-disk JIT cache."
 )
 ASSUMPTIONS = ["Numba compiles the decorated functions faithfully; the on-disk cache returns the code it was given"]
 
